@@ -182,7 +182,7 @@ struct Shadow {
 
 struct Runner { cfg: Cfg, env: Env, c: C, ac: AC, lis: Arc<Lis>, lis_seen: usize, gate_sends: usize, sh: Shadow, tr: Tr, now: u64,
   held: Vec<Arc<u64>>, snap_bytes: Option<Vec<u8>>, fails: Vec<(String, String)>, nkeys: u64, spurious: bool, case_id: String,
-  occupied_before: BTreeMap<u64, bool>, expected_loads: u64, gate_pending: Vec<Removal> }
+  occupied_before: BTreeMap<u64, bool>, expected_loads: u64, gate_pending: Vec<Removal>, abandoned: Option<&'static str> }
 
 fn bo<F: std::future::Future>(f: F) -> F::Output { futures_executor::block_on(f) }
 fn show_opt(v: Option<u64>) -> String { v.map(|x| format!("some:{x}")).unwrap_or_else(|| "none".into()) }
@@ -199,7 +199,7 @@ impl Runner {
     let sh = Shadow { latest: BTreeMap::new(), vids: HashMap::new(), stale_timers: BTreeMap::new(), pending: vec![VecDeque::new(); cfg.shards], overflowed: false,
       adv: vec![0; cfg.shards], notified: BTreeSet::new(), cap_pass_mismatch: false, restored: false };
     let tr = Tr::new(id, &cfg.header());
-    Runner { now: cfg.t0, cfg, env, c, ac, lis, lis_seen: 0, gate_sends: 0, sh, tr, held: vec![], snap_bytes: None, fails: vec![], nkeys, spurious: false, case_id: id.to_string(), occupied_before: BTreeMap::new(), expected_loads: 0, gate_pending: vec![] }
+    Runner { now: cfg.t0, cfg, env, c, ac, lis, lis_seen: 0, gate_sends: 0, sh, tr, held: vec![], snap_bytes: None, fails: vec![], nkeys, spurious: false, case_id: id.to_string(), occupied_before: BTreeMap::new(), expected_loads: 0, gate_pending: vec![], abandoned: None }
   }
   fn fail(&mut self, sig: &str, msg: String) { if !self.fails.iter().any(|f| f.0 == sig) { self.fails.push((sig.to_string(), msg)); } }
   fn shard(&self, k: u64) -> usize { (k % self.cfg.shards as u64) as usize }
@@ -542,7 +542,17 @@ impl Runner {
         let t0 = Instant::now();
         let mut ev = self.lis.events.lock().unwrap();
         while ev.len() < want && t0.elapsed() < Duration::from_secs(20) { ev = self.lis.cv.wait_timeout(ev, Duration::from_millis(200)).unwrap().0; }
-        if t0.elapsed() > Duration::from_secs(1) { eprintln!("cacheh: waited {:?} for the notifier thread ({} of {} delivered) in case {}", t0.elapsed(), ev.len() - self.lis_seen.min(ev.len()), sends, self.case_id); }
+        if t0.elapsed() > Duration::from_secs(3) { eprintln!("cacheh: waited {:?} for the notifier thread ({} of {} delivered) in case {}", t0.elapsed(), ev.len() - self.lis_seen.min(ev.len()), sends, self.case_id); }
+        if ev.len() < want {
+          // not delivered in 20 s: lost, or stuck in the queue behind a notifier thread that was not woken?
+          // poke the channel with an unrelated removal, classify, and have the case re-run from scratch.
+          drop(ev);
+          self.c.insert(999_999, 1, 1); self.c.remove(&999_999);
+          let t1 = Instant::now();
+          ev = self.lis.events.lock().unwrap();
+          while ev.len() < want + 1 && t1.elapsed() < Duration::from_secs(5) { ev = self.lis.cv.wait_timeout(ev, Duration::from_millis(100)).unwrap().0; }
+          self.abandoned = Some(if ev.len() >= want + 1 { "listener:notification-stuck-in-queue-until-next-send" } else { "listener:removal-not-notified" });
+        }
         notifs = ev[self.lis_seen.min(ev.len())..].to_vec();
         drop(ev);
         if notifs.len() != sends as usize { self.fail("listener:delivered-count-differs-from-removals-counted-by-metrics", format!("{op}: metrics/policy log imply {sends} notifications, listener got {}", notifs.len())); }
@@ -687,6 +697,7 @@ impl Runner {
 
 /// the property a monitor signature is a violation of
 fn prop_of(sig: &str) -> &'static str {
+  let sig = sig.strip_prefix("stress:").unwrap_or(sig);
   if sig.starts_with("listener:") { "C16" }
   else if sig.starts_with("accounting:") || sig.starts_with("capacity:") { "C13" }
   else if sig.starts_with("snapshot:") || sig.contains(":yields-") || sig.contains(":omits-") { "C17" }
@@ -712,13 +723,16 @@ fn decode_snapshot(b: &[u8]) -> (Vec<(u64, u64, u64, Option<u64>)>, u64, u64) {
 
 
 fn run_case(id: &str, cfg: &Cfg, ops: &[String]) -> String {
+  let mut carried: Vec<&'static str> = vec![];
   for _ in 0..5 {
     let mut r = Runner::new(id, cfg.clone());
-    for op in ops { r.exec(op); }
+    for op in ops { r.exec(op); if r.abandoned.is_some() { break; } }
+    if let Some(sig) = r.abandoned { if !carried.contains(&sig) { carried.push(sig); } r.lis.gate_closed.store(false, Ordering::SeqCst); continue; }
+    for sig in &carried { r.fail(sig, "in an earlier execution of this case a notification was not delivered within 20 s; it arrived only after a later, unrelated send woke the notifier thread (the case was then re-run from scratch)".to_string()); }
     let (out, spurious) = r.finish();
     if !spurious { return out; }
   }
-  format!("#case {id} {}\n# gave up: opportunistic maintenance kept firing in mc=never mode\n#end\n", cfg.header())
+  format!("#case {id} {}\n# gave up: opportunistic maintenance kept firing in mc=never mode / notifier kept stalling\n#end\n", cfg.header())
 }
 
 // ------------------------------------------------------------------ generator
@@ -814,6 +828,157 @@ fn gen_case(seed: u64, i: usize, tier: &str, focus: &str) -> (Cfg, Vec<String>) 
   (cfg, g.ops)
 }
 
+
+// ------------------------------------------------------------------ real-thread stress (C11/C13/C16, best effort)
+/// Several threads hammer one cache (no TTL, janitor at 1 ms, opportunistic maintenance on) with
+/// uniquely tagged writes; every call is bracketed by two ticks of a global logical clock and the
+/// recorded history is checked against the per-key register semantics with real-time order:
+/// a read may return nothing, or a value written to THAT key that was not definitely overwritten
+/// or removed before the read began; a value is consumed by at most one successful compute (no
+/// lost read-modify-write); in an unbounded cache `or_insert` inserts at most once between
+/// removals, `current_cost` equals the resident cost at quiescence, and notifications are
+/// distinct, name real bindings and (Invalidated) match the successful removals.
+#[derive(Clone, Debug)]
+struct Ev { inv: u64, res: u64, kind: u8, key: u64, wrote: Option<u64>, got: Option<u64>, ok: bool }
+const K_READ: u8 = 0; const K_WRITE: u8 = 1; const K_REMOVE: u8 = 2; const K_COMPUTE: u8 = 3; const K_ORINS: u8 = 4; const K_CLEAR: u8 = 5;
+
+fn stress_case(id: &str, seed: u64) -> String {
+  let mut rng = Rng::new(seed);
+  let unbounded = rng.chance(1, 2);
+  let shards = *rng.pick(&[1usize, 2, 8]);
+  let cap = if unbounded { None } else { Some(*rng.pick(&[3u64, 5, 8])) };
+  let policy = if unbounded { "null".to_string() } else { rng.pick(&POLICIES).to_string() };
+  let cfg = Cfg { policy, pcap: cap.map(|c| (c + shards as u64 - 1) / shards as u64).unwrap_or(0), cap, shards, ttl: None, tti: None, swr: None, wheel: 60, tick: 1000,
+    mc_always: true, moi: false, lis: true, t0: 1_000_000, nkeys: *rng.pick(&[2u64, 4, 6]), async_loader: false };
+  let mut tr = Tr::new(id, &format!("stress {}", cfg.header()));
+  verif_clock::freeze_at(cfg.t0 * 1_000_000);
+  // like `build`, but with a live janitor (1 ms) and a probabilistic opportunistic hook
+  let ms = Duration::from_millis;
+  let lis = Arc::new(Lis::default());
+  let mut b = CacheBuilder::<u64, u64, IdHash>::new().hasher(IdHash).shards(cfg.shards).janitor_tick_interval(ms(1))
+    .maintenance_chance(*rng.pick(&[1u32, 2, 16])).eviction_listener(RecListener(lis.clone())).loader(|k: u64| (u64::MAX - k, 1));
+  b = match cfg.cap { Some(c) => b.capacity(c), None => b.unbounded() };
+  let (name, pcap) = (cfg.policy.clone(), cfg.pcap);
+  b = b.cache_policy_factory(move || mk_policy(&name, pcap));
+  let cache: C = b.build().expect("build");
+  let clock = Arc::new(AtomicU64::new(1));
+  let nthreads = *rng.pick(&[2usize, 3, 4]);
+  let nops = *rng.pick(&[60usize, 200, 400]);
+  let nkeys = cfg.nkeys;
+  let mut handles = vec![];
+  for tid in 0..nthreads {
+    let (c, clock, mut r) = (cache.clone(), clock.clone(), rng.fork());
+    handles.push(std::thread::spawn(move || {
+      let ac = c.to_async();
+      let mut evs: Vec<Ev> = Vec::with_capacity(nops);
+      let mut ctr = 0u64;
+      for _ in 0..nops {
+        let k = r.below(nkeys);
+        ctr += 1; let vid = (tid as u64 + 1) * 1_000_000 + ctr;
+        let op = *r.weighted(&[(30u32, 0u8), (8, 1), (25, 2), (8, 3), (10, 4), (10, 5), (1, 6), (2, 7), (4, 8), (2, 9)]);
+        let inv = clock.fetch_add(1, Ordering::SeqCst);
+        let mut e = Ev { inv, res: 0, kind: K_READ, key: k, wrote: None, got: None, ok: true };
+        let asy = r.chance(1, 4);
+        match op {
+          0 => e.got = if asy { bo(ac.fetch(&k)).map(|a| *a) } else { c.get(&k, |v| *v) },
+          1 => e.got = c.peek(&k).map(|a| *a),
+          2 => { let cost = r.range(0, 3); if asy { bo(ac.insert(k, vid, cost)) } else { c.insert(k, vid, cost) } e.kind = K_WRITE; e.wrote = Some(vid); e.got = Some(cost); }
+          3 => { e.kind = K_REMOVE; e.got = if asy { bo(ac.remove(&k)).map(|a| *a) } else { c.remove(&k).map(|a| *a) }; }
+          4 => { e.kind = K_COMPUTE; match c.compute_val(&k, |x| { let old = *x; *x = vid; old }) { ComputeResult::Ok(old) => { e.got = Some(old); e.wrote = Some(vid); } _ => e.ok = false } }
+          5 => { e.kind = K_ORINS; let g = *c.entry(k).or_insert(vid, 1); e.got = Some(g); if g == vid { e.wrote = Some(vid); } }
+          6 => { e.kind = K_CLEAR; c.clear(); }
+          7 => { c.run_maintenance(); e.ok = false; }
+          8 => { e.ok = false; for (kk, v) in c.iter_with_batch_size(2) { let t = clock.load(Ordering::SeqCst); evs.push(Ev { inv, res: t, kind: K_READ, key: kk, wrote: None, got: Some(*v), ok: true }); } }
+          _ => { e.kind = K_REMOVE; let ok = c.invalidate(&k); e.ok = ok; e.got = None; if !ok { e.kind = K_REMOVE; } }
+        }
+        e.res = clock.fetch_add(1, Ordering::SeqCst);
+        if e.ok || e.kind == K_REMOVE || e.kind == K_CLEAR { evs.push(e); }
+      }
+      evs
+    }));
+  }
+  let mut evs: Vec<Ev> = vec![];
+  for h in handles { evs.extend(h.join().expect("stress thread")); }
+  // quiesce: let the janitor and a few explicit passes run, then observe
+  for _ in 0..40 { cache.run_maintenance(); }
+  std::thread::sleep(ms(5));
+  let mut fails: Vec<(String, String)> = vec![];
+  let mut fail = |s: &str, m: String| { if !fails.iter().any(|f| f.0 == s) { fails.push((s.to_string(), m)); } };
+  // index writes
+  let mut wr: HashMap<u64, &Ev> = HashMap::new(); // vid -> the call that wrote it
+  let mut cost_of: HashMap<u64, u64> = HashMap::new();
+  for e in &evs { if let Some(v) = e.wrote { wr.insert(v, e); cost_of.insert(v, if e.kind == K_WRITE { e.got.unwrap_or(1) } else { 1 }); } }
+  // a compute keeps the entry's cost: the cost of a computed value is the cost of the value it replaced
+  let mut changed = true; while changed { changed = false; for e in &evs { if e.kind == K_COMPUTE { if let (Some(n), Some(o)) = (e.wrote, e.got) { let c = cost_of.get(&o).copied().unwrap_or(1); if cost_of.get(&n) != Some(&c) { cost_of.insert(n, c); changed = true; } } } } }
+  let mutators: Vec<&Ev> = evs.iter().filter(|e| e.kind != K_READ).collect();
+  let check_read = |key: u64, v: u64, r_inv: u64, r_res: u64, what: &str, fail: &mut dyn FnMut(&str, String)| {
+    match wr.get(&v) {
+      None => { if v != u64::MAX - key { fail("stress:read-returns-value-never-written", format!("{what}({key}) returned {v}")); } }
+      Some(w) if w.key != key => fail("stress:read-returns-another-keys-value", format!("{what}({key}) returned {v}, written to key {}", w.key)),
+      Some(w) => {
+        if w.inv > r_res { fail("stress:read-returns-value-from-the-future", format!("{what}({key}) returned {v}")); }
+        if let Some(x) = mutators.iter().find(|x| (x.key == key || x.kind == K_CLEAR) && x.inv > w.res && x.res < r_inv && x.wrote != Some(v)
+            && (x.wrote.is_some() || x.kind == K_CLEAR || x.kind == K_REMOVE)) {
+          fail("stress:read-returns-overwritten-or-removed-value", format!("{what}({key}) [{r_inv},{r_res}] returned {v} written in [{},{}], but a later mutation of the key (kind {}) completed in [{},{}] before the read began", w.inv, w.res, x.kind, x.inv, x.res));
+        }
+      }
+    }
+  };
+  let mut consumed: HashMap<u64, u64> = HashMap::new();
+  for e in &evs {
+    match e.kind {
+      K_READ => if let Some(v) = e.got { check_read(e.key, v, e.inv, e.res, "read", &mut fail); },
+      K_REMOVE => if let Some(v) = e.got { check_read(e.key, v, e.inv, e.res, "remove", &mut fail); },
+      K_COMPUTE => if let Some(old) = e.got { check_read(e.key, old, e.inv, e.res, "compute", &mut fail);
+        if let Some(prev) = consumed.insert(old, e.wrote.unwrap_or(0)) { fail("stress:compute-lost-update", format!("value {old} of key {} was replaced by two computes ({prev} and {:?})", e.key, e.wrote)); } },
+      K_ORINS => if let (Some(g), None) = (e.got, e.wrote) { check_read(e.key, g, e.inv, e.res, "or_insert", &mut fail); },
+      _ => {}
+    }
+  }
+  if unbounded {
+    // or_insert inserts at most once between removals
+    let ins: Vec<&Ev> = evs.iter().filter(|e| e.kind == K_ORINS && e.wrote.is_some()).collect();
+    for a in &ins { for b in &ins { if a.key == b.key && a.res < b.inv {
+      let between = mutators.iter().any(|x| (x.key == a.key || x.kind == K_CLEAR) && (x.kind == K_REMOVE || x.kind == K_CLEAR) && x.res > a.inv && x.inv < b.res);
+      if !between { fail("stress:or_insert-inserted-twice-without-removal", format!("key {}: or_insert inserted {:?} and later {:?} with no remove/clear in between", a.key, a.wrote, b.wrote)); } } } }
+    // accounting at quiescence
+    let resident: Vec<(u64, u64)> = cache.iter().map(|(k, v)| (k, *v)).collect();
+    let sum: u64 = resident.iter().map(|(_, v)| cost_of.get(v).copied().unwrap_or(1)).sum();
+    let cc = cache.metrics().current_cost;
+    if cc != sum { fail("stress:accounting:current_cost-differs-from-resident-cost-at-quiescence", format!("current_cost {cc}, resident {:?} cost {sum}", resident)); }
+  }
+  // listener
+  let t0 = Instant::now();
+  let removed: Vec<(u64, u64)> = evs.iter().filter(|e| e.kind == K_REMOVE).filter_map(|e| e.got.map(|v| (e.key, v))).collect();
+  while unbounded && removed.len() <= 100 && lis.count.load(Ordering::SeqCst) < removed.len() && t0.elapsed() < Duration::from_secs(20) { std::thread::sleep(ms(1)); }
+  let notifs = lis.events.lock().unwrap().clone();
+  let mut seen = BTreeSet::new();
+  for (k, v, r) in &notifs {
+    if !seen.insert(*v) { fail("stress:listener:duplicate-notification", format!("{k}:{v}:{r} delivered twice")); }
+    match wr.get(v) { None => fail("stress:listener:notification-for-value-never-written", format!("{k}:{v}:{r}")),
+      Some(w) if w.key != *k => fail("stress:listener:notification-pairs-value-with-wrong-key", format!("{k}:{v}:{r}, {v} was written to {}", w.key)), _ => {} }
+    if *r == 'I' && !removed.contains(&(*k, *v)) && !evs.iter().any(|e| e.kind == K_REMOVE && e.key == *k && e.ok && e.got.is_none()) { fail("stress:listener:invalidated-without-a-remove-returning-it", format!("{k}:{v}")); }
+    if *r == 'E' { fail("stress:listener:expired-reason-without-any-ttl", format!("{k}:{v}")); }
+    if *r == 'C' && unbounded { fail("stress:listener:capacity-reason-in-unbounded-cache", format!("{k}:{v}")); }
+  }
+  if unbounded && removed.len() <= 100 {
+    let missing: Vec<(u64, u64)> = removed.iter().filter(|(k, v)| !notifs.iter().any(|n| n.0 == *k && n.1 == *v && n.2 == 'I')).copied().collect();
+    if !missing.is_empty() {
+      // is it lost, or sitting in the queue because the parked notifier thread was not woken? poke the channel once more
+      cache.insert(999_999, 1, 1); cache.remove(&999_999);
+      let t1 = Instant::now();
+      let arrived = |l: &Lis| { let ev = l.events.lock().unwrap(); missing.iter().all(|(k, v)| ev.iter().any(|n| n.0 == *k && n.1 == *v && n.2 == 'I')) };
+      while !arrived(&lis) && t1.elapsed() < Duration::from_secs(5) { std::thread::sleep(ms(1)); }
+      if arrived(&lis) { fail("stress:listener:notification-stuck-in-queue-until-next-send", format!("remove returned {:?}; their notifications were delivered only after a later, unrelated send woke the notifier thread (waited {:?} before)", missing, t0.elapsed())); }
+      else { fail("stress:listener:remove-not-notified", format!("remove returned {:?}, no Invalidated notification even after a later send", missing)); }
+    }
+  }
+  tr.raw(&format!("# threads={nthreads} ops/thread={nops} events={} notifications={}", evs.len(), notifs.len()));
+  let only = std::env::var("VERIF_PROP").ok();
+  for (s, m) in &fails { if only.as_deref().map_or(true, |p| p == prop_of(s)) { tr.monitor(s, &format!("[{}] {m}", prop_of(s))); } }
+  tr.finish()
+}
+
 fn main() {
   let args: Vec<String> = std::env::args().collect();
   if args.get(1).map(|s| s.as_str()) == Some("genworker") {
@@ -823,6 +988,12 @@ fn main() {
     let mut out = String::new();
     for i in lo..hi { let (cfg, ops) = gen_case(seed, i, &tier, &focus); out.push_str(&run_case(&format!("{focus}.{seed}.{i}"), &cfg, &ops)); }
     print!("{out}");
+    return;
+  }
+  if args.get(1).map(|s| s.as_str()) == Some("stress") {
+    // stress <seed> <cases>
+    let seed: u64 = args.get(2).and_then(|s| s.parse().ok()).unwrap_or(1); let n: usize = args.get(3).and_then(|s| s.parse().ok()).unwrap_or(50);
+    for i in 0..n { print!("{}", stress_case(&format!("stress.{seed}.{i}"), seed.wrapping_mul(7919).wrapping_add(i as u64))); }
     return;
   }
   match parse_args() {
